@@ -1,4 +1,4 @@
-"""C02 extra sweep: one synthetic one-field (plus one tagged-field) dataclass per dispatch row
+"""C01/C02/C03/C05 extra sweep: one synthetic one-field (plus one tagged-field) dataclass per dispatch row
 (kafka_type x flexible x nullable x scalar/array x tagged), explored at k=2, so that rows that the
 real schema uses rarely are still covered.  The classes follow the documented metadata contract,
 as tests/serial does."""
@@ -115,14 +115,16 @@ def make(spec):
     return ws
 
 
-def sweep(run, tier):
-    from .codec import judge_c02
+def sweep(run, tier, prop="C02"):
+    from .codec import JUDGES
+
+    mode, judge = JUDGES[prop]
 
     acc = Acc(max_samples=3)
     n = 0
     for spec in specs():
         ws = make(spec)
-        ex = values.Explorer(ws, 2, "value", 32767)
+        ex = values.Explorer(ws, 2, mode, 32767, long_arrays=True)
         seen = set()
         for cost, w, edits in ex:
             h = hash(values.freeze(w))
@@ -132,7 +134,7 @@ def sweep(run, tier):
             acc.add("states")
             if cost:
                 acc.add("distinct_nontrivial")
-            judge_c02(ws, cost, w, edits, acc, (10**6 + n, cost, len(seen)))
+            judge(ws, cost, w, edits, acc, (10**6 + n, cost, len(seen)))
         acc.add("transitions", ex.transitions)
         acc.add("dispatch_rows")
         n += 1
